@@ -66,7 +66,8 @@ def gen(rng, tier, info, ifaces=(0, 1, 2, 7)):
         x0 = rng.choice([-5, 0, -(wide - lw) // 2, -(wide - lw)])
         y0 = rng.range(-1, max(0, lh - 2))
         hh = rng.range(2, 3)
-        pc["ops"] = [(-1, ("fcg", (x0, y0, wide, hh), wide * hh))]
+        # colour k mod 65521: an index shift by 65536 (a u16-truncated skip count) changes the colour
+        pc["ops"] = [(-1, ("fcm", (x0, y0, wide, hh), wide * hh, 65521))]
         pc["tags"] = ["wide-rect"]
         pc["nontrivial"] = True
         c = vlib.pcase(pc)
